@@ -257,8 +257,6 @@ func TestC01(t *testing.T) {
 	if !rec.Thorough() {
 		leafSweep("A1", 28, 1)
 		leafSweep("B1", 28, 1)
-		leafSweep("A2", 2, 1)
-		leafSweep("B3", 5, 1)
 	} else {
 		for _, b := range corp.Names {
 			leafSweep(b, 28, 3)
@@ -345,7 +343,23 @@ func TestC01(t *testing.T) {
 			}
 			continue
 		}
-		rec.SetRapid("desc/"+b, rec.Share(110))
+		if b == "A1" {
+			// deterministic backbone of the quick tier: every selector/scalar edit, and the +1 variant of
+			// every coset shift and of every gate parameter, once each
+			for _, e := range edits {
+				cat := e.Path[0]
+				if (cat == "k_is" || cat == "gates") && e.Op != "+1" && e.Op != "param+1" {
+					continue
+				}
+				item++
+				if !rec.Mine(item) {
+					continue
+				}
+				e := e
+				exec(t, c01Case{Base: b, K: 28, Kind: "desc", Edit: &e}, "desc-enumerated/"+cat)
+			}
+		}
+		rec.SetRapid("desc/"+b, rec.Share(70))
 		rapid.Check(t, func(rt *rapid.T) {
 			var e cdEdit
 			if rapid.IntRange(0, 4).Draw(rt, "random-ki") == 0 {
